@@ -47,6 +47,12 @@ CHECKS = {
             "Every cell runs from_data, convert, Cls.from_data, Cls(*args/**kw) and into_data(result) on fresh mutable containers (also defaultdict / inserting mappings) "
             "and compares a deep snapshot before and after, for both verdicts; the same datum spelled with tuple / MappingProxyType must give the same verdict and value.",
             E1_NOTE),
+    'C11': ("exhaustive enumeration of ordered member pairs/triples x nesting forms x overlap values on the real union converter; compositional oracle (each member alone)",
+            "All ordered pairs (thorough: triples) over 20 deliberately overlapping member types in 10 nesting forms (nested/flattened unions, Optional inside and outside, "
+            "container element, Annotated, dataclass field, generic dataclass field after subscription) are run on every value in any member's neighbourhood; the result must be "
+            "typed-equal to what the first accepting member (order from typing.get_args of the spelled type) returns alone; each value sequence is replayed a second time on the "
+            "memoised converter (history independence); serialisation must come from a member that round-trips the value.",
+            "Members are converted alone by the same implementation (strictly smaller types, themselves covered by C01). Member pool and value pools are fixed."),
     'C20': ("bounded-exhaustive enumeration of all identifiers (<=3/4 words over a 3-letter alphabet) x styles on the real rename code, algebraic-law oracle",
             "Every snake_case identifier of up to 3 (quick) / 4 (thorough) words of 2-3 letters over {a,b,z} is pushed through all 5 styles and all 25 style pairs on the real code; canonical form, idempotence, inverse and composition laws are checked on every one, malformed shapes must raise ValueError, and the class-level rename path is exercised on generated classes. The space is finite and fully enumerated, which is the right level for a pure string function whose failure modes are word-boundary patterns that all occur within 3-4 short words.",
             "Alphabet {a,b,z}, words of 2-3 letters; digits / non-ASCII outside the alphabet. Oracle formulas are independent of pane's splitting code."),
